@@ -145,7 +145,7 @@ const vfAclMaxSubs = 3
 var vfErrInjectedStore = errors.New("injected store failure")
 
 // vfFaultOracles judges one request during which exactly one store call failed (C08 fault clause, C13).
-func vfFaultOracles(opname, kind, failed string, k, code int, preDump, postDump string, base *vfXResult, post *vfTopicSnap) []vfXViolation {
+func vfFaultOracles(opname, kind, failed string, k, code int, preDump, postDump string, base *vfXResult, post *vfTopicSnap, pre *vfTopicSnap) []vfXViolation {
 	var out []vfXViolation
 	site := kind + "@" + failed
 	detail := map[string]any{"op": opname, "failing_call": failed, "failing_call_index": k, "code": code, "fault_free_code": base.Code}
@@ -172,7 +172,18 @@ func vfFaultOracles(opname, kind, failed string, k, code int, preDump, postDump 
 			bad("C08:acknowledged-but-not-stored:"+site, fmt.Sprintf("%s: store call #%d (%s) failed, reply %d, store differs from the fault-free outcome:\n%s", opname, k, failed, code, vfDumpDiff(base.PostDump, postDump)))
 		}
 	}
+	// differences which an earlier step of the history left behind are not this request's doing
+	// (they are reported where they arise)
+	had := map[string]bool{}
+	if pre != nil {
+		for _, d := range pre.cacheVsStore() {
+			had[strings.SplitN(d, ":", 2)[0]] = true
+		}
+	}
 	for _, d := range post.cacheVsStore() {
+		if had[strings.SplitN(d, ":", 2)[0]] {
+			continue
+		}
 		field := d
 		if i := strings.Index(d, ":"); i > 0 {
 			field = strings.Fields(d[:i])[0]
@@ -245,7 +256,7 @@ func vfAclExec(alphabet []vfAclOp) func(hist []int, last bool) vfXResult {
 				if ps, ok := pre.live(fmt.Sprintf("u%d", op.Actor)); ok && (op.Kind == "sub" || op.Kind == "setself") && vfHas(op.Mode, 'O') && ps.Given.IsOwner() && !ps.Want.IsOwner() {
 					kind = "accept-transfer"
 				}
-				res.Violations = append(res.Violations, vfFaultOracles(op.String(), kind, failed, vfXFault.K, code, preDump, res.PostDump, vfXFault.Base, post)...)
+				res.Violations = append(res.Violations, vfFaultOracles(op.String(), kind, failed, vfXFault.K, code, preDump, res.PostDump, vfXFault.Base, post, pre)...)
 				// what clients subsequently see: the topic keeps answering its owner (a failed request must
 				// not leave it paused or otherwise unusable)
 				if post.alive() && code >= 400 {
